@@ -605,6 +605,17 @@ class patched_numpy:
             setattr(numpy, name, f)
         for nm, fill in (("empty", 0), ("zeros", 0), ("ones", 1), ("full", None)):
             wrapper(nm, fill)
+        orig_arange = numpy.arange
+        self.saved["arange"] = orig_arange
+
+        def arange(*a, **k):
+            import sys as _sys
+            caller = _sys._getframe(1).f_globals.get("__name__", "")
+            res = orig_arange(*[int(x) if isinstance(x, SymInt) else x for x in a], **k)
+            if sym.active() and caller.startswith(("pybrops", "contracts")):
+                return from_concrete(res)       # so that indexing it with symbolic masks / indices is intercepted
+            return res
+        numpy.arange = arange
         return self
 
     def __exit__(self, *exc):
